@@ -59,7 +59,19 @@ func (c *fctx) instr(fr *frame, in ssa.Instruction, reach string, st *state) {
 		a := c.addrOfPointer(c.operand(fr, x.Addr), x.Addr.Type())
 		c.nilCheck(fr, a, x.Addr, x.Pos(), reach)
 		v := c.operand(fr, x.Val)
+		// writes into objects allocated by this very activation need no frame obligation
+		if _, base, _ := c.addrRoot(x.Addr); base != nil {
+			switch b := base.(type) {
+			case *ssa.Alloc:
+				c.modeNoAssigns = true
+			case *ssa.Slice:
+				if _, ok := b.X.(*ssa.Alloc); ok {
+					c.modeNoAssigns = true
+				}
+			}
+		}
 		c.store(a, c.termOf(v, "store"), st, reach, x.Pos(), fr)
+		c.modeNoAssigns = false
 	case *ssa.UnOp:
 		c.unop(fr, x, reach, st)
 	case *ssa.BinOp:
@@ -93,7 +105,9 @@ func (c *fctx) instr(fr *frame, in ssa.Instruction, reach string, st *state) {
 		for _, b := range x.Bindings {
 			bs = append(bs, c.operand(fr, b))
 		}
-		fr.vals[x] = val{t: c.fresh("clo", "Fn"), clo: &closure{fn: x.Fn.(*ssa.Function), bindings: bs}}
+		cv := c.fresh("clo", "Fn")
+		c.assume(fmt.Sprintf("(not (= %s nilFn))", cv))
+		fr.vals[x] = val{t: cv, clo: &closure{fn: x.Fn.(*ssa.Function), bindings: bs}}
 	case *ssa.MakeSlice:
 		l := c.operand(fr, x.Len).t
 		cp := c.operand(fr, x.Cap).t
@@ -137,7 +151,15 @@ func (c *fctx) instr(fr *frame, in ssa.Instruction, reach string, st *state) {
 	case *ssa.Slice:
 		fr.vals[x] = c.sliceOp(fr, x, reach, st)
 	case *ssa.Range:
-		fr.vals[x] = val{it: &iterState{x: c.operand(fr, x.X), typ: x.X.Type()}}
+		xv := c.operand(fr, x.X)
+		fr.vals[x] = val{it: &iterState{x: xv, typ: x.X.Type()}}
+		if mt, ok := types.Unalias(x.X.Type()).Underlying().(*types.Map); ok {
+			// ghost: the set of keys this iteration has produced so far
+			ks := c.S.SortOf(mt.Key())
+			key, srt := "X:seen:"+typeKey(mt), "(Array Int (Array "+ks+" Bool))"
+			c.loopCheck(fr, key)
+			c.setRegion(st, key, srt, fmt.Sprintf("(store %s %s %s)", c.region(st, key, srt), xv.t, c.S.ConstArray(ks, "Bool", "false")))
+		}
 	case *ssa.Next:
 		c.next(fr, x, reach, st)
 	case *ssa.Defer:
@@ -146,6 +168,9 @@ func (c *fctx) instr(fr *frame, in ssa.Instruction, reach string, st *state) {
 		for i := len(fr.defers) - 1; i >= 0; i-- {
 			d := fr.defers[i]
 			if !d.Block().Dominates(x.Block()) {
+				if !blockReaches(d.Block(), x.Block()) {
+					continue // this defer statement cannot have executed on a path to here
+				}
 				c.errorf("%s: conditional defer (unsupported)", fr.fn)
 				continue
 			}
@@ -159,6 +184,24 @@ func (c *fctx) instr(fr *frame, in ssa.Instruction, reach string, st *state) {
 			fr.vals[v] = val{t: c.S.Zero(v.Type())}
 		}
 	}
+}
+
+func blockReaches(from, to *ssa.BasicBlock) bool {
+	seen := map[*ssa.BasicBlock]bool{}
+	stack := []*ssa.BasicBlock{from}
+	for len(stack) > 0 {
+		b := stack[len(stack)-1]
+		stack = stack[:len(stack)-1]
+		if b == to {
+			return true
+		}
+		if seen[b] {
+			continue
+		}
+		seen[b] = true
+		stack = append(stack, b.Succs...)
+	}
+	return false
 }
 
 // loopCheck verifies a region written outside store() is in the enclosing loops' write sets.
@@ -292,6 +335,13 @@ func (c *fctx) unop(fr *frame, x *ssa.UnOp, reach string, st *state) {
 		c.nilCheck(fr, a, x.X, x.Pos(), reach)
 		if g, ok := x.X.(*ssa.Global); ok {
 			c.globalFacts(g, st)
+			if _, isSig := types.Unalias(x.Type()).Underlying().(*types.Signature); isSig {
+				if f := c.P.GlobalInitFunc(g); f != nil {
+					c.used["global-fact:"+g.String()+" is only assigned by its initialiser (SSA scan)"] = true
+					fr.vals[x] = val{t: c.fnConst(f), clo: &closure{fn: f}}
+					return
+				}
+			}
 		}
 		t := c.load(a, st)
 		srt := c.S.SortOf(x.Type())
@@ -516,6 +566,10 @@ func (c *fctx) convert(fr *frame, x *ssa.Convert, reach string, st *state) val {
 	case tIsB && tb.Info()&types.IsString != 0:
 		if sl, ok := from.(*types.Slice); ok {
 			eb, _ := types.Unalias(sl.Elem()).Underlying().(*types.Basic)
+			if eb != nil && eb.Kind() == types.Uint8 {
+				h := c.region(st, c.elemKey(sl.Elem()), c.elemSort("Int"))
+				return val{t: c.define("str", "Str", fmt.Sprintf("(bytesToStr (select %s (sbase %s)) (soff %s) (slen %s))", h, v.t, v.t, v.t))}
+			}
 			s := c.fresh("str", "Str")
 			if eb != nil && eb.Kind() == types.Uint8 {
 				h := c.region(st, c.elemKey(sl.Elem()), c.elemSort("Int"))
@@ -662,9 +716,16 @@ func (c *fctx) next(fr *frame, x *ssa.Next, reach string, st *state) {
 		mv := c.region(st, c.mapValKey(mt), c.mapValSort(mt))
 		v := c.define("nxv", vs, fmt.Sprintf("(select (select %s %s) %s)", mv, it.x.t, k))
 		c.assume(implies(and(reach, ok), fmt.Sprintf("(and (not (= %s 0)) (select (select %s %s) %s))", it.x.t, has, it.x.t, k)))
+		// every key is produced exactly once; when the iteration ends every key has been produced
+		skey, ssrt := "X:seen:"+typeKey(mt), "(Array Int (Array "+ks+" Bool))"
+		seen := c.region(st, skey, ssrt)
+		c.assume(implies(and(reach, ok), fmt.Sprintf("(not (select (select %s %s) %s))", seen, it.x.t, k)))
+		c.assume(implies(and(reach, not(ok)), fmt.Sprintf("(forall ((k!s %s)) (! (=> (and (not (= %s 0)) (select (select %s %s) k!s)) (select (select %s %s) k!s)) :pattern ((select (select %s %s) k!s))))", ks, it.x.t, has, it.x.t, seen, it.x.t, has, it.x.t)))
+		c.loopCheck(fr, skey)
+		c.setRegion(st, skey, ssrt, fmt.Sprintf("(ite %s (store %s %s (store (select %s %s) %s true)) %s)", ok, seen, it.x.t, seen, it.x.t, k, seen))
 		c.assumeFacts(and(reach, ok), k, mt.Key(), st)
 		c.assumeFacts(and(reach, ok), v, mt.Elem(), st)
-		c.used["abstracted:map iteration (any subset of entries, in any order; coverage/termination not modelled)"] = true
+		c.used["abstracted:map iteration order is arbitrary; each key is produced once; termination of map loops not modelled"] = true
 		fr.vals[x] = val{tup: []val{{t: ok}, {t: k}, {t: v}}}
 		return
 	}
